@@ -1,6 +1,7 @@
 import XalanModel.Generated.C02_Recycle
 import XalanModel.Generated.C02_NodeSetBuilders
 import XalanModel.Generated.C02_ParentWalks
+import XalanModel.Generated.C02_ScratchBuffers
 import XalanModel.C02.CompileProofs
 import XalanModel.C02.CompileWhole
 import XalanModel.C02.CompareProofs
@@ -301,5 +302,21 @@ theorem parent_walks_use_xpath_parent :
     (∀ e ∈ parentWalks, e.domParentCalls ≤ (if e.file = "XPath/XPath.cpp" then 1 else 0)) ∧
     (∃ e ∈ parentWalks, e.file = "XPath/FunctionLang.cpp" ∧ 1 ≤ e.xpathParentCalls) := by
   decide
+
+/-! ## Scratch buffers are emptied on every iteration
+
+`DOMServices::getNodeData(node, context, buffer)` appends.  The table is regenerated by `translate/c02_scratch_buffers.py`. -/
+
+/-- **Scratch buffers**: every loop of the function library that reads one node's string-value per iteration into a buffer
+declared outside the loop empties that buffer by a `clear()` at the top level of the loop body (on every iteration, not only on
+some branch).  The two audited accumulating loops (`id()` joining the values of a node-set, `str:concat`) are the exceptions. -/
+theorem scratch_buffers_cleared :
+    ∀ e ∈ scratchBuffers, e.freshEachIteration = true ∨ e.clearedEachIteration = true ∨
+      (e.file = "XPath/FunctionID.cpp" ∧ e.buffer = "m_resultString") ∨
+      (e.file = "XalanEXSLT/XalanEXSLTString.cpp" ∧ e.buffer = "theResult") := by
+  decide
+
+/-- the table contains the loops of `xalan:distinct` and of the EXSLT math functions -/
+example : ∃ e ∈ scratchBuffers, e.file = "XalanExtensions/FunctionDistinct.cpp" := by decide
 
 end XalanModel.Props.C02
